@@ -328,7 +328,7 @@ class Interp:
         if not await self.start_node():
             return False
         # SPECIAL-USE folders are created by the server at start-up
-        for n in SPECIAL_USE:
+        for n in sorted(SPECIAL_USE):
             if n not in self.model.boxes:
                 self.model.boxes[n] = MBox(n)
         self.obs = self.connect("obs", "10.0.0.9")
@@ -2401,7 +2401,7 @@ class Interp:
         subs = {("inbox" if n.upper() == "INBOX" else n) for n, _ in self.parse_list(r, "LSUB")}
         for n, b in self.model.boxes.items():
             b.subscribed = n in subs
-        for n, b in list(self.model.boxes.items()):
+        for n, b in sorted(self.model.boxes.items()):
             if b.noselect:
                 continue
             was = pre.get(n) if pre else None
